@@ -42,7 +42,7 @@ def opOf (t : Tok) : Char :=
   | [c] => if isName t || isNumber t then '\x00' else c
   | _ => '\x00'
 
-inductive Err | div0 | divov | invalid | fnmacro
+inductive Err | div0 | divov | invalid | fnmacro | other
   deriving DecidableEq, Repr
 
 /-! ## numbers: istream extraction and printing -/
@@ -75,17 +75,18 @@ def readNat (base : Nat) (s : List Char) : Option Nat :=
     | some _ => some (readNatAux base s 0)
     | none => none
 
+def signSplit : List Char → Bool × List Char
+  | '-' :: r => (true, r)
+  | '+' :: r => (false, r)
+  | s => (false, s)
+
+def clampLL (v : Int) : Int := if v > llMax then llMax else if v < llMin then llMin else v
+
 /-- `istr >> (long long)` in the given base: optional sign, digits, clamp on overflow, 0 when no digit was read -/
 def extractLL (base : Nat) (s : List Char) : Int :=
-  let (neg, body) := match s with
-    | '-' :: r => (true, r)
-    | '+' :: r => (false, r)
-    | _ => (false, s)
-  match readNat base body with
+  match readNat base (signSplit s).2 with
   | none => 0
-  | some n =>
-    let v : Int := if neg then - (n : Int) else (n : Int)
-    if v > llMax then llMax else if v < llMin then llMin else v
+  | some n => clampLL (if (signSplit s).1 then - (n : Int) else (n : Int))
 
 /-- `istr >> (unsigned long long)` (only reached for spellings that start with `0x`) -/
 def extractULL (base : Nat) (s : List Char) : Nat :=
@@ -174,14 +175,17 @@ def binPass (sel : Tok → Option BinOp) : List Tok → List Tok → Except Err 
   | rev, [t] => .ok (rev.reverse ++ [t])
   | rev, t :: n :: rest' =>
     if isRpar t then .ok (rev.reverse ++ t :: n :: rest')
-    else match sel t, rev with
-      | some o, p :: rev' =>
-        if isNumber p && isNumber n then
-          match applyBin o (stringToLL p) (stringToLL n) with
-          | .ok r => binPass sel (toStr r :: rev') rest'
-          | .error e => .error e
-        else binPass sel (t :: rev) (n :: rest')
-      | _, _ => binPass sel (t :: rev) (n :: rest')
+    else match sel t with
+      | none => binPass sel (t :: rev) (n :: rest')
+      | some o =>
+        match rev with
+        | [] => binPass sel (t :: rev) (n :: rest')
+        | p :: rev' =>
+          if isNumber p && isNumber n then
+            match applyBin o (stringToLL p) (stringToLL n) with
+            | .ok r => binPass sel (toStr r :: rev') rest'
+            | .error e => .error e
+          else binPass sel (t :: rev) (n :: rest')
 
 def selMul (t : Tok) : Option BinOp :=
   if opOf t == '*' then some .mul else if opOf t == '/' then some .div else if opOf t == '%' then some .mod else none
@@ -225,18 +229,22 @@ def questionPass (hasPrev : Bool) : Nat → List Tok → Except Err (List Tok)
     | .ok none => .ok l
     | .ok (some l') => questionPass hasPrev fuel l'
 
-/-- the eight passes in the order of `TokenList::constFold`, on the tokens that follow the chosen `(` (or on the whole list) -/
-def passes (hasPrev : Bool) (l : List Tok) : Except Err (List Tok) := do
-  let l := unaryPass [] l
-  let l ← binPass selMul [] l
-  let l ← binPass selAdd [] l
-  let l ← binPass selShift [] l
-  let l ← binPass selCmp [] l
-  let l ← binPass (selChar '&' .band) [] l
-  let l ← binPass (selChar '^' .bxor) [] l
-  let l ← binPass (selChar '|' .bor) [] l
-  let l ← binPass selLogic [] l
-  questionPass hasPrev l.length l
+/-- the operator recognisers of the binary passes in the order of `TokenList::constFold`
+(constFoldBitwise is three passes: `&`, `^`, `|`) -/
+def sels : List (Tok → Option BinOp) :=
+  [selMul, selAdd, selShift, selCmp, selChar '&' .band, selChar '^' .bxor, selChar '|' .bor, selLogic]
+
+def binPasses : List (Tok → Option BinOp) → List Tok → Except Err (List Tok)
+  | [], l => .ok l
+  | s :: r, l => match binPass s [] l with
+    | .ok l' => binPasses r l'
+    | .error e => .error e
+
+/-- the passes in the order of `TokenList::constFold`, on the tokens that follow the chosen `(` (or on the whole list) -/
+def passes (hasPrev : Bool) (l : List Tok) : Except Err (List Tok) :=
+  match binPasses sels (unaryPass [] l) with
+  | .ok l' => questionPass hasPrev l'.length l'
+  | .error e => .error e
 
 /-- split at the last `(`: tokens before it, tokens after it -/
 def splitLastLpar : List Tok → Option (List Tok × List Tok)
@@ -286,20 +294,29 @@ def evaluate (l : List Tok) : Except Err Int := do
 
 /-- the loop of simplecpp::preprocess that builds the expression of `#if` / `#elif` when no macro of the table occurs
 outside `defined`: `defined X` / `defined ( X )` become `1` / `0`.  `none` = "failed to evaluate #if condition". -/
+def defTok (isDef : Tok → Bool) (x : Tok) : Tok := if isDef x then ['1'] else ['0']
+
 def replaceDefined (isDef : Tok → Bool) : List Tok → Option (List Tok)
   | [] => some []
-  | t :: rest =>
+  | [t] => if t == "defined".toList then none else some [t]
+  | [t, a] =>
+    if t == "defined".toList then (if opOf a == '(' then none else some [defTok isDef a])
+    else (replaceDefined isDef [a]).map (t :: ·)
+  | [t, a, b] =>
+    if t == "defined".toList then (if opOf a == '(' then none else (replaceDefined isDef [b]).map (defTok isDef a :: ·))
+    else (replaceDefined isDef [a, b]).map (t :: ·)
+  | t :: lp :: x :: rp :: rest' =>
     if t == "defined".toList then
-      match rest with
-      | lp :: x :: rp :: rest' =>
-        if opOf lp == '(' then
-          if opOf rp == ')' then (replaceDefined isDef rest').map ((if isDef x then ['1'] else ['0']) :: ·) else none
-        else (replaceDefined isDef (x :: rp :: rest')).map ((if isDef lp then ['1'] else ['0']) :: ·)
-      | [lp, x] => if opOf lp == '(' then none else (replaceDefined isDef [x]).map ((if isDef lp then ['1'] else ['0']) :: ·)
-      | [x] => if opOf x == '(' then none else some [if isDef x then ['1'] else ['0']]
-      | [] => none
-    else (replaceDefined isDef rest).map (t :: ·)
-termination_by l => l.length
+      if opOf lp == '(' then
+        if opOf rp == ')' then (replaceDefined isDef rest').map (defTok isDef x :: ·) else none
+      else (replaceDefined isDef (x :: rp :: rest')).map (defTok isDef lp :: ·)
+    else (replaceDefined isDef (lp :: x :: rp :: rest')).map (t :: ·)
+
+/-- `#if` on the tokens of the line when no macro name occurs outside `defined` -/
+def evalIf (isDef : Tok → Bool) (l : List Tok) : Except Err Int :=
+  match replaceDefined isDef l with
+  | none => .error .other
+  | some l => evaluate l
 
 /-! ## specification (C17 6.10.1p4, 6.6, 6.5) -/
 
@@ -480,8 +497,6 @@ def print : E → List Tok
     (if rootLevel c ≤ 0 then paren (print c) else print c) ++ ['?'] ::
     print t ++ [':'] :: (print f)
 
-/-! ## the agreement class: the hypotheses of `ifeval_eq_spec` (Props/C11.lean), all decidable -/
-
 def isLeaf : E → Bool
   | .lit _ | .defd _ _ | .ident _ => true
   | _ => false
@@ -489,6 +504,31 @@ def isLeaf : E → Bool
 def isCompound : E → Bool
   | .bin _ _ _ | .cond _ _ _ => true
   | _ => false
+
+/-- tokens of `e` with every binary / conditional operand in parentheses -/
+def printPF : E → List Tok
+  | .lit l => [litTok l]
+  | .defd x p => if p then ["defined".toList, ['('], x, [')']] else ["defined".toList, x]
+  | .ident x => [x]
+  | .un o e => unTok o :: (if isCompound e then paren (printPF e) else printPF e)
+  | .bin o a b =>
+    (if isCompound a then paren (printPF a) else printPF a) ++ binTok o ::
+    (if isCompound b then paren (printPF b) else printPF b)
+  | .cond c t f =>
+    (if isCompound c then paren (printPF c) else printPF c) ++ ['?'] ::
+    (if isCompound t then paren (printPF t) else printPF t) ++ [':'] ::
+    (if isCompound f then paren (printPF f) else printPF f)
+
+/-- identifiers of the tree are identifiers other than `defined` -/
+def wfNames : E → Bool
+  | .lit _ => true
+  | .defd x _ => isName x && x != "defined".toList
+  | .ident x => isName x && x != "defined".toList
+  | .un _ e => wfNames e
+  | .bin _ a b => wfNames a && wfNames b
+  | .cond c t f => wfNames c && wfNames t && wfNames f
+
+/-! ## the agreement class: the hypotheses of `ifeval_eq_spec` (Props/C11.lean), all decidable -/
 
 /-- H-lits: every literal is decimal, has no suffix and fits intmax_t -/
 def plainLits : E → Bool
